@@ -226,8 +226,7 @@ Definition to_naive_time (p : parsed) : option (Z * Z) :=
   match p_h p, p_mi p with
   | Some h, Some mi =>
     let '(sec, nano0) := match p_s p with
-                         | Some 60 => (59, giga)
-                         | Some v => (v, 0)
+                         | Some v => if v =? 60 then (59, giga) else (v, 0)
                          | None => (0, 0)
                          end in
     match p_ns p, p_s p with
